@@ -462,6 +462,8 @@ def queue_commit_rules(ctx):
     mpsc_tail_protocol(ctx)
     mpsc_bulk_value_rules(ctx)
     spsc_block_recycling_rules(ctx)
+    copy_to_bulk_rules(ctx)
+    mpsc_block_start_chain(ctx)
     # the block-boundary test uses the committed index, and the block is advanced on exactly its aligned edge
     f = ctx.fn("R-ENUM", BP, "mpsc/bulk-boundary-test-uses-commit")
     if f is not None:
@@ -996,6 +998,24 @@ def block_boundary_rule(ctx, fid, index_on, index_any, block_on, block_any, inst
         ctx.ob(rule, fid, inst + "/block-moves-iff-commit-aligned", False,
                "%s has no test `(committed index & BLOCK_MASK) == 0` (or its `id == BLOCK_MASK` form) on the index it commits: the decision to move to the next block is not taken on the committed index" % what, f.where())
         return
+    # every commit is followed by the boundary decision (a second commit site - a slow path that returns early - needs it too)
+    def unaligned(a):
+        if a.kind != "cmp" or a.op != "Ne": return False
+        class _A: pass
+        b = _A(); b.kind = "cmp"; b.op = "Eq"; b.a = a.a; b.b = a.b
+        return aligned(b)
+    deciding = set(bi for (bi, tb, lab) in ctx.edges(f, aligned)) | set(bi for (bi, tb, lab) in ctx.edges(f, unaligned))
+    csites = sorted(an.sites(f, IDX, "must"))
+    stop = set(Point(bi, len(f.blocks[bi]["st"])) for bi in deciding)
+    undecided = []
+    for c in csites:
+        before = c not in an.reach(f, [Point(0, 0)], blocked=stop)         # the decision was taken before this commit (spsc pop: test, move, commit)
+        r = an.reach(f, an.after(f, c), blocked=stop)
+        if not before and any(x in r for x in f.ret_points()): undecided.append(c)
+    ctx.ob(rule, fid, inst + "/every-commit-decides-boundary", not undecided,
+           "every path that commits an index in %s also takes the block-boundary decision on it" % what if not undecided else
+           "%s commits an index on a path that never tests it against the block boundary: when that commit lands on the last slot of a block the block pointer stays on the "
+           "exhausted block - the next accesses re-read / overwrite its slots" % what, f.where(undecided[0]) if undecided else f.where(csites[0]))
     ctx.guarded(fid, BLK, aligned, inst + "/block-moves-only-if-commit-aligned",
                 "%s moves its block pointer only when the index it commits is block-aligned (moving early skips the unread/unwritten rest of the block)" % what, rule=rule,
                 pred_label="edge `(committed index & BLOCK_MASK) == 0`")
@@ -1514,6 +1534,8 @@ def yield_api_forwarding(ctx):
 # scheduler: a worker goes idle only with its queues drained; the timer thread delivers Timeout before it resumes (C01, C08)
 
 def scheduler_drain_rules(ctx, rule="R-EXIT"):
+    worker_polls_global_rules(ctx)
+    event_loop_never_returns(ctx)
     S = "may::scheduler::Scheduler"
     RQ = S + "::run_queued_tasks"; CG = S + "::collect_global"
     f = ctx.fn(rule, RQ, "worker/idle-only-when-drained")
@@ -2023,3 +2045,176 @@ def wait_group_rules(ctx, rule="R-ORDER"):
     bad = [w for w in waits if w in r]
     ctx.ob(rule, WG + "::wait", "wait-group/leaves-before-waiting", not bad, "WaitGroup::wait gives up its own reference (count - 1) before it waits for the count to reach 0" if not bad else
            "WaitGroup::wait waits for the count to reach 0 while it still holds its own reference: it waits for itself", f.where(bad[0]) if bad else f.where())
+
+
+# ------------------------------------------------------------------------------------------------
+# linear normal form of an integer expression (an Origin): {atom: coefficient} with "" the constant; atoms are the maximal
+# non-linear subterms. Used for dataflow equalities such as "the number of slots copied is end - start".
+
+def linear_form(o, depth=0):
+    o = _sv(o)
+    if depth > 12: return {repr(o): 1}
+    if o[0] == "const" and o[2] is not None:
+        try: return {"": int(o[2])}
+        except (TypeError, ValueError): return {repr(o): 1}
+    if o[0] == "bin" and o[1] in ("Add", "Sub"):
+        a, b = linear_form(o[2], depth + 1), linear_form(o[3], depth + 1)
+        out = dict(a)
+        for k, v in b.items(): out[k] = out.get(k, 0) + (v if o[1] == "Add" else -v)
+        return {k: v for k, v in out.items() if v != 0}
+    if o[0] == "bin" and o[1] in ("Mul", "Shl"):
+        a, b = linear_form(o[2], depth + 1), linear_form(o[3], depth + 1)
+        ca = a.get("") if set(a) <= {""} else None
+        cb = b.get("") if set(b) <= {""} else None
+        if o[1] == "Shl" and cb is not None: return {k: v * (1 << cb) for k, v in a.items()}
+        if o[1] == "Mul" and cb is not None: return {k: v * cb for k, v in a.items() if v * cb != 0}
+        if o[1] == "Mul" and ca is not None: return {k: v * ca for k, v in b.items() if v * ca != 0}
+        return {repr(o): 1}
+    if o[0] == "call" and re.search(r"::(wrapping|saturating|unchecked)_(add|sub)$", o[2] or ""):
+        return {repr(o): 1}     # needs the function body to see the operands; treated as an atom
+    return {repr(o): 1}
+
+def lin_sub(a, b):
+    out = dict(a)
+    for k, v in b.items(): out[k] = out.get(k, 0) - v
+    return {k: v for k, v in out.items() if v != 0}
+
+def copy_to_bulk_rules(ctx, rule="R-ENUM"):
+    """every block queue has the same helper `BlockNode::copy_to_bulk(start, end)`; its callers commit `end` and account `end - start`
+    slots, so the helper copies exactly the `end - start` slots beginning at slot `start & BLOCK_MASK` (seed C03-7: masking `end` as
+    well makes the range empty when it ends at the block boundary - the committed values are never handed out)"""
+    n = 0
+    for q in ("mpsc", "spsc", "spmc"):
+        fid = "may_queue::%s::BlockNode::copy_to_bulk" % q
+        f = ctx.prog.fn(fid)
+        if f is None: continue
+        n += 1
+        ctx.fns_touched.add(fid)
+        rngs = []
+        for g in [f] + ctx.prog.closures_of(f):
+            for pt in g.points():
+                if g.is_term(pt): continue
+                nd = g.node(pt)
+                if nd.get("s") == "=" and nd["rv"]["r"] == "agg" and nd["rv"].get("ak") == "adt" and norm(nd["rv"]["adt"]).endswith("ops::Range") and g is f:
+                    names = nd["rv"]["fields"]
+                    rngs.append((pt, simplify(trace_operand(f, nd["rv"]["ops"][names.index("start")])), simplify(trace_operand(f, nd["rv"]["ops"][names.index("end")]))))
+        if len(rngs) != 1:
+            ctx.missing(rule, fid, q + "/copy/length-is-end-minus-start", "expected one Range construction in copy_to_bulk, found %d" % len(rngs)); continue
+        pt, rs, re_ = rngs[0]
+        want = lin_sub(linear_form(O("arg", 3)), linear_form(O("arg", 2)))
+        got = lin_sub(linear_form(re_), linear_form(rs))
+        ok = got == want
+        ctx.ob(rule, fid, q + "/copy/length-is-end-minus-start", ok, "%s copy_to_bulk walks exactly `end - start` slots" % q if ok else
+               "%s copy_to_bulk walks a range whose length is not `end - start` (range %s .. %s): its callers commit `end` and account `end - start` slots - values between are lost or read twice" %
+               (q, fmt_origin(rs)[:60], fmt_origin(re_)[:90]), f.where(pt))
+        # first slot: start & MASK (as the range start, or added to the range variable inside the closure - only the former is recognised;
+        # a range starting at 0 is accepted when the closure adds something)
+        s0 = _sv(rs)
+        oks = (s0[0] == "bin" and s0[1] == "BitAnd" and (_sv(s0[2]) == O("arg", 2) or _sv(s0[3]) == O("arg", 2)) and (_is_mask_const(s0[2]) or _is_mask_const(s0[3]))) or is_const(0)(s0)
+        ctx.ob(rule, fid, q + "/copy/first-slot-is-start-masked", oks, "%s copy_to_bulk starts at slot `start & BLOCK_MASK`" % q if oks else
+               "%s copy_to_bulk's range does not start at `start & BLOCK_MASK` (%s)" % (q, fmt_origin(rs)[:80]), f.where(pt))
+    if n < 3:
+        ctx.missing(rule, "may_queue::*::BlockNode::copy_to_bulk", "copy/siblings", "expected the three copy_to_bulk siblings, found %d" % n)
+
+
+# ------------------------------------------------------------------------------------------------
+# F20: a worker that keeps finding coroutines in its local queue still polls its global queue (C01)
+
+def worker_polls_global_rules(ctx, rule="R-EXIT"):
+    """every cycle of run_queued_tasks that runs a coroutine passes a point that polls the worker's global queue: collect_global itself, or a
+    periodic decision `counter % K == 0` (counter advanced by a non-zero constant on that cycle) whose true edge leads to collect_global.
+    Without it a coroutine that keeps yielding keeps the local queue non-empty for ever and what schedule_global sent to this worker -
+    every freshly spawned coroutine - never runs (finding F20)."""
+    S = "may::scheduler::Scheduler"; RQ = S + "::run_queued_tasks"
+    f = ctx.fn(rule, RQ, "worker/every-run-cycle-polls-global")
+    if f is None: return
+    an = ctx.an
+    RUN = an.sites(f, Call(r"may::coroutine_impl::run_coroutine", transitive=False), "must")
+    CG = an.sites(f, Call(re.escape(S) + "::collect_global", transitive=False), "must")
+    if not RUN:
+        ctx.missing(rule, RQ, "worker/every-run-cycle-polls-global", "no run_coroutine in run_queued_tasks"); return
+    def periodic(a):
+        if not (a.kind == "cmp" and a.op == "Eq" and is_const(0)(a.b)): return False
+        x = _sv(a.a)
+        if not (x[0] == "bin" and x[1] == "Rem"): return False
+        k = _sv(x[3])
+        if not (k[0] == "const" and k[2] is not None and int(k[2]) >= 1): return False
+        c = _sv(x[2])
+        # the counter is advanced by a non-zero constant (x + c / wrapping_add(x, c)) of a value that goes round the loop
+        if c[0] == "call" and (c[2] or "").endswith("wrapping_add"):
+            st = simplify(trace_operand(f, f.term(c[1])["args"][1])); return st[0] == "const" and st[2] not in (None, 0, "0")
+        if c[0] == "bin" and c[1] == "Add": return _sv(c[3])[0] == "const" and _sv(c[3])[2] not in (None, 0, "0")
+        if c[0] == "phi": return any((y[0] == "call" and (y[2] or "").endswith("wrapping_add")) or (y[0] == "bin" and y[1] == "Add") for y in (_sv(z) for z in c[2]))
+        return False
+    polls = set(CG)
+    decisions = []
+    for (bi, tb, lab) in ctx.edges(f, periodic):
+        # the true edge must lead to collect_global before the next run / return
+        r = an.reach(f, [Point(tb, 0)], blocked=CG)
+        if not any(x in r for x in list(RUN) + f.ret_points()):
+            decisions.append(bi); polls.add(Point(bi, len(f.blocks[bi]["st"])))
+    bad = []
+    for rpt in sorted(RUN):
+        r = an.reach(f, an.after(f, rpt), blocked=polls)
+        if rpt in r: bad.append(rpt)           # a cycle through this run site that passes no polling point
+    ctx.ob(rule, RQ, "worker/every-run-cycle-polls-global", not bad,
+           "every cycle of run_queued_tasks that runs a coroutine passes collect_global or a periodic `counter %% K == 0` decision that leads to it (%d periodic decision(s), %d collect_global site(s))" % (len(decisions), len(CG)) if not bad else
+           "run_queued_tasks can run coroutine after coroutine from the local queue without ever looking at the worker's global queue: a coroutine that keeps yielding keeps the local queue "
+           "non-empty, so the coroutines that schedule_global sent to this worker (every fresh spawn) are never run", f.where(bad[0]) if bad else f.where(sorted(RUN)[0]))
+
+def selector_serves_timeout_wakeups(ctx, rule="R-PAIR"):
+    """F21: the io timeout handler resumes coroutines in place at the end of Selector::select; what they make ready lands in the worker's local
+    queue and nobody wakes the worker for it - select runs the local queue after the timer list before it returns to epoll_wait"""
+    SEL = "may::io::sys::select::Selector::select"
+    f = ctx.prog.fn(SEL)
+    if f is None: return
+    ST = Call(r"may::timeout_list::TimeOutList::schedule_timer", transitive=False)
+    if not ctx.an.sites(f, ST, "must"):
+        return          # no io timers in this configuration
+    ctx.must_follow(SEL, ST, Call(r"may::scheduler::Scheduler::run_queued_tasks", transitive=False), "select/local-queue-served-after-timers",
+                    "after the io timer list was processed (its handler runs coroutines in place) the worker's local queue is run before select returns to sleep", rule=rule)
+
+
+def mpsc_block_start_chain(ctx, rule="R-ENUM"):
+    """(seed C05-7) every mpsc block knows the queue index of its first slot (`start`); push_index() = tail_block.start + id is what pop()
+    compares with to tell `empty` from `a producer is mid-push`. The chain is start(first) = 0, start(second) = BLOCK_SIZE, and the
+    producer of a block's last slot installs the block after the next one: start = claimed.start + 2 * BLOCK_SIZE."""
+    MQ = "may_queue::mpsc"
+    NB = Call(re.escape(MQ) + "::BlockNode::new_box", transitive=False)
+    bs = None
+    f = ctx.fn(rule, MQ + "::Queue::new", "mpsc/block-start/initial-chain")
+    if f is not None:
+        vals = []
+        for pt in sorted(ctx.an.sites(f, NB, "must")):
+            lf = linear_form(trace_operand(f, f.node(pt)["args"][0]))
+            vals.append(lf.get("", 0) if set(lf) <= {""} else None)
+        ok = len(vals) == 2 and vals[0] == 0 and vals[1] not in (None, 0)
+        bs = vals[1] if ok else None
+        ctx.ob(rule, MQ + "::Queue::new", "mpsc/block-start/initial-chain", ok, "Queue::new creates the first two blocks with start 0 and BLOCK_SIZE (%s)" % bs if ok else
+               "Queue::new does not create its first two blocks with start 0 and BLOCK_SIZE (found %s)" % vals, f.where())
+    g = ctx.fn(rule, MQ + "::Queue::push", "mpsc/block-start/next-next-is-plus-two-blocks")
+    if g is not None and bs:
+        sites = sorted(ctx.an.sites(g, NB, "must"))
+        ok = bool(sites)
+        got = None
+        for pt in sites:
+            lf = linear_form(trace_operand(g, g.node(pt)["args"][0]))
+            atoms = {k: v for k, v in lf.items() if k != ""}
+            got = lf
+            ok &= lf.get("", 0) == 2 * bs and len(atoms) == 1 and list(atoms.values()) == [1] and ".start" in fmt_origin(_sv(trace_operand(g, g.node(pt)["args"][0])))
+        ctx.ob(rule, MQ + "::Queue::push", "mpsc/block-start/next-next-is-plus-two-blocks", ok, "the block installed by the producer of a block's last slot starts at claimed.start + 2 * BLOCK_SIZE" if ok else
+               "mpsc push creates the block after the next one with a start that is not `block.start + 2 * BLOCK_SIZE`: from then on push_index() mis-reports the number of claimed slots and pop() "
+               "answers `empty` while a producer is between its claim and its write (Mutex::unlock then finds no waiter although cnt counted one)", g.where(sites[0]) if sites else g.where())
+
+def event_loop_never_returns(ctx, rule="R-EXIT"):
+    """(seed C01-8) a worker thread is EventLoop::run; it never returns, whatever select reports (EINTR is an ordinary result of epoll_wait):
+    a worker that has left owns queues, an epoll instance and io timers that nobody serves any more"""
+    EL = "may::io::event_loop::EventLoop::run"
+    f = ctx.fn(rule, EL, "worker/event-loop-never-returns")
+    if f is None: return
+    r = ctx.an.reach(f, [Point(0, 0)])
+    rets = [x for x in f.ret_points() if x in r]
+    ctx.ob(rule, EL, "worker/event-loop-never-returns", not rets, "EventLoop::run has no reachable return: a worker serves its queues and its selector for ever" if not rets else
+           "EventLoop::run can return: the worker thread ends and everything routed to it (its global queue, its epoll instance, its io timers) is never served again", f.where(rets[0]) if rets else f.where(),
+           detail=ctx.an.fmt_path(f, ctx.an.path(f, [Point(0, 0)], rets)) if rets else None)
+    ctx.must_call(EL, Call(r"may::io::sys::select::Selector::select", transitive=False), "worker/event-loop-selects", "the worker loop polls its selector") if False else None
